@@ -113,4 +113,68 @@ theorem C09_monotone {X : Type} (feasible : X → Prop) (f : X → ℝ) (xstar x
     (hmin : ∀ x, feasible x → f xstar ≤ f x) (hprev : feasible xprev) : f xstar ≤ f xprev :=
   hmin xprev hprev
 
+/-- what an exact solver guarantees: an `'optimal'` answer of sub-problem A is a minimiser of `f` over the feasible set
+`feasA p` of that sub-problem and reports its objective; an `'optimal'` answer of sub-problem B for `u` is a `p` that keeps
+`u` feasible for the next sub-problem A (the two sub-problems share one LMI) -/
+structure ExactSolver {U P : Type} (e : Env U P) (f : U → Rat) (feasA : P → U → Prop) : Prop where
+  a_opt : ∀ p k, (e.solveA p k).optimal = true →
+    (e.solveA p k).obj = f (e.solveA p k).u ∧ feasA p (e.solveA p k).u ∧ ∀ u, feasA p u → f (e.solveA p k).u ≤ f u
+  b_opt : ∀ u k, (e.solveB u k).optimal = true → feasA (e.solveB u k).p u
+
+theorem loop_log_monotone {U P : Type} (e : Env U P) (f : U → Rat) (feasA : P → U → Prop)
+    (hs : ExactSolver e f feasA) (fuel k : Nat) (u : U) (p : P) (log : List Rat)
+    (hpw : log.Pairwise (· ≥ ·)) (hlow : ∀ x ∈ log, f u ≤ x) (hfeas : log ≠ [] → feasA p u) :
+    (loop e fuel k u p log).log.Pairwise (· ≥ ·) := by
+  induction fuel generalizing k u p log with
+  | zero => simpa [loop] using hpw
+  | succ fuel ih =>
+    unfold loop
+    by_cases h1 : e.stopA k = true
+    · simpa [h1] using hpw
+    · simp only [h1, Bool.false_eq_true, if_false]
+      by_cases h2 : (e.solveA p k).optimal = true
+      · obtain ⟨hobj, hfa, hmin⟩ := hs.a_opt p k h2
+        -- the new objective is below everything logged so far
+        have hnew : ∀ x ∈ log, (e.solveA p k).obj ≤ x := by
+          intro x hx
+          have hne : log ≠ [] := List.ne_nil_of_mem hx
+          have := hmin u (hfeas hne)
+          rw [hobj]
+          exact le_trans this (hlow x hx)
+        have hpw' : (log ++ [(e.solveA p k).obj]).Pairwise (· ≥ ·) := by
+          rw [List.pairwise_append]
+          refine ⟨hpw, List.pairwise_singleton _ _, ?_⟩
+          intro a ha b hb
+          simp only [List.mem_singleton] at hb
+          subst hb
+          exact hnew a ha
+        simp only [h2, Bool.not_true, Bool.false_eq_true, if_false]
+        by_cases h3 : closeHit e log (e.solveA p k).obj = true
+        · simpa [h3] using hpw'
+        · simp only [h3, Bool.false_eq_true, if_false]
+          by_cases h4 : e.stopB k = true
+          · simpa [h4] using hpw'
+          · simp only [h4, Bool.false_eq_true, if_false]
+            by_cases h5 : (e.solveB (e.solveA p k).u k).optimal = true
+            · simp only [h5, Bool.not_true, Bool.false_eq_true, if_false]
+              apply ih
+              · exact hpw'
+              · intro x hx
+                simp only [List.mem_append, List.mem_singleton] at hx
+                rcases hx with hx | rfl
+                · rw [← hobj]; exact hnew x hx
+                · rw [hobj]
+              · intro _
+                exact hs.b_opt _ k h5
+            · simpa [h5] using hpw'
+      · simpa [h2] using hpw
+
+/-- **the logged objective never increases** (every iteration budget, every sequence of stop requests and solver
+failures), given an exact solver -/
+theorem C09_log_monotone {U P : Type} (e : Env U P) (f : U → Rat) (feasA : P → U → Prop)
+    (hs : ExactSolver e f feasA) (maxIter : Nat) (u0 : U) (p0 : P) :
+    (fit e maxIter u0 p0).log.Pairwise (· ≥ ·) := by
+  unfold fit
+  exact loop_log_monotone e f feasA hs maxIter 0 u0 p0 [] List.Pairwise.nil (by simp) (by simp)
+
 end Pk.C09
